@@ -4030,8 +4030,9 @@ bool CanettiGennaroJareckiKrawczykRabinDSS::Sign
 				}
 			}
 			mpz_powm(beta_i[j], beta_i[j], r, p);
-			tmcg_mpz_fpowm(fpowm_table_g, foo, g, m, p);
-			tmcg_mpz_fpowm(fpowm_table_h, bar, h, m, p);
+			mpz_mod(lhs, m, q); // the tables hold $|q|$ entries: reduce the message first
+			tmcg_mpz_fpowm(fpowm_table_g, foo, g, lhs, p);
+			tmcg_mpz_fpowm(fpowm_table_h, bar, h, lhs, p);
 			mpz_mul(beta_i[j], beta_i[j], foo);
 			mpz_mod(beta_i[j], beta_i[j], p);
 			mpz_mul(beta_i[j], beta_i[j], bar);
